@@ -507,7 +507,19 @@ func refundHeight(p012, p004, p011now bool, now, left uint64, typ byte, dismiss 
 	if fork {
 		sit = "fork"
 	}
-	return service.RefundManagerImpl.VerifC20RefundHeight(now, left, typ, []byte{1}, sit)
+	// getRefundHeight is unexported: it is reached through the exported GetRefundStake (first result) on a scratch
+	// account state holding one miner of the given type whose whole stake `left` stays locked (refund of 0)
+	adb, err := middleware.AccountDBManagerInstance.GetAccountDBByHash(common.Hash{})
+	if err != nil {
+		panic(err)
+	}
+	id, acct := []byte{0xc2, 0x0e}, []byte{0xac}
+	service.MinerManagerImpl.InsertMiner(&types.Miner{Id: id, Type: typ, Stake: left, Account: acct, PublicKey: []byte{1}, VrfPublicKey: []byte{1}}, adb)
+	h, _, _, rerr := service.RefundManagerImpl.GetRefundStake(now, id, acct, 0, adb, sit)
+	if rerr != nil {
+		panic(rerr)
+	}
+	return h
 }
 
 var devConfig *common.ChainConfig
